@@ -153,6 +153,11 @@ pub struct Compiler {
     /// The number of values of half-evaluated expressions that are on the stack at this point of the
     /// (current) function, like the left operand of an infix expression while its right operand runs.
     pending_operands: usize,
+
+    /// The position behind the last function body in `instructions`. What follows it is top-level code of
+    /// earlier programs: once that has run nothing can refer to it any more (function values only point
+    /// into function bodies), so the next program takes its place.
+    code_in_use: usize,
     gc: GC,
 }
 
@@ -191,6 +196,7 @@ impl Compiler {
             last_instruction: None,
             loop_contexts: Vec::new(),
             pending_operands: 0,
+            code_in_use: 0,
             gc: GC::new(),
         }
     }
@@ -202,14 +208,19 @@ impl Compiler {
         let num_globals = self.symbols.num_globals();
         let num_constants = self.constants.len();
 
-        // The code of earlier programs is kept, because function values that were created by them
-        // (and are still around in global variables) refer to it
+        // The code of earlier programs is kept as far as function values that were created by them
+        // (and are still around in global variables) can refer to it. The top-level code behind their last
+        // function body is dropped: otherwise every program that was ever compiled, also one that failed
+        // while it ran, would count against the 16-bit positions that jumps can address
+        let code_in_use = self.code_in_use;
+        self.instructions.truncate(code_in_use);
         let start = self.instructions.len();
         self.last_instruction = None;
 
         let result = self.compile_program(ast, start);
         if result.is_err() {
             self.instructions.truncate(start);
+            self.code_in_use = code_in_use;
             self.last_instruction = None;
             self.loop_contexts.clear();
             self.pending_operands = 0;
@@ -727,6 +738,7 @@ impl Compiler {
                 }
 
                 self.change_jump_operand_at(pos_jump, Self::fit(self.instructions.len(), "instructies")?);
+                self.code_in_use = self.instructions.len();
 
                 // Switch back to previous scope again
                 let num_locals = self.symbols.leave_context();
